@@ -107,7 +107,21 @@ def main(argv):
         for p, v in sorted(row["new"].items()):
             for line in v[:4]:
                 print("      %s %s" % (p, line))
+    # a patch taken in as "pending" stops being pending once the check of its own property reports it
+    for key, row in results.items():
+        mp = os.path.join(HERE, "seeded", key, "meta.json")
+        if row["caught_by_own_property"] and os.path.exists(mp):
+            meta = json.load(open(mp))
+            if meta.pop("pending", None):
+                json.dump(meta, open(mp, "w"), indent=1)
     if write:
+        if mink or want:
+            try:
+                old = json.load(open(os.path.join(HERE, "seeded", "RESULTS.json")))
+            except (IOError, ValueError):
+                old = {}
+            old.update(results)
+            results = old
         with open(os.path.join(HERE, "seeded", "RESULTS.json"), "w") as fp:
             json.dump(results, fp, indent=1, sort_keys=True)
     return 0
